@@ -165,6 +165,13 @@ pub fn enumerate_symver(n: usize, seed: u64) -> Vec<SymverCase> {
             if o + 28 <= def.len() { p32(&mut def, o + 20, soff(&mut r)); p32(&mut def, o + 24, [8u64, 0, 28, 500][r.next(4) as usize]); }
             o += 28;
         }
+        // truncation boundaries: once in a few thousand cases the sections are padded with zeros to just around 2^16 auxiliary-record
+        // slots after the first record (a count or a size narrowed to 16 bits somewhere shows there and nowhere below)
+        if r.next(4000) == 0 {
+            let d = [0usize, 8, 4, 16][r.next(4) as usize]; let k = 1 + r.next(2) as usize;
+            if !def.is_empty() { def.resize(20 + 8 * 65536 * k + d, 0); }
+            if !need.is_empty() { need.resize(16 + 16 * 65536 * k + d, 0); }
+        }
         out.push(SymverCase { versym, need, def, strs, need_count: [0u64, 1, 2, 3, u64::MAX][r.next(5) as usize], def_count: [0u64, 1, 2, 3, u64::MAX][r.next(5) as usize], little });
     }
     out
@@ -240,7 +247,9 @@ pub fn check_hash_tables(c: &HashCase) -> Result<(), String> {
     let sysv_t = if on("C12") { SysVHashTable::new(e, class, &sysv) } else { Err(elf::ParseError::BadMagic([0; 4])) }; let gnu_t = if on("C11") { GnuHashTable::new(e, class, &gnu) } else { Err(elf::ParseError::BadMagic([0; 4])) };
     if well_formed && on("C12") && sysv_t.is_err() { return Err("C12: a well-formed .hash section is rejected by SysVHashTable::new()".into()); }
     if well_formed && on("C11") && gnu_t.is_err() { return Err("C11: a well-formed .gnu.hash section is rejected by GnuHashTable::new()".into()); }
-    for (q, present) in c.names.iter().map(|n| (n, true)).chain(c.absent.iter().filter(|a| !c.names.contains(a)).map(|n| (n, false))) {
+    // queries with an embedded NUL that spell two neighbouring strings of the string table: never a symbol's name
+    let spliced: Vec<Vec<u8>> = (0..c.names.len().saturating_sub(1)).map(|k| [&c.names[k][..], &[0u8][..], &c.names[k + 1][..]].concat()).collect();
+    for (q, present) in c.names.iter().map(|n| (n, true)).chain(c.absent.iter().filter(|a| !c.names.contains(a)).map(|n| (n, false))).chain(spliced.iter().map(|n| (n, false))) {
         // the calls themselves are gated by the property being checked: a panic in the GNU lookup is not a C12 failure
         if on("C12") { if let Ok(t) = &sysv_t { check("SysV", t.find(q, &syms, &st), q, present)?; } }
         // GNU finds exactly the hashed symbols (index >= symoffset)
